@@ -1,6 +1,6 @@
 (* Round trips of the hand-modelled irregular codecs (no origin): HIP, IPSECKEY, AMTRELAY, APL. *)
 From DV Require Import Base.Prelude Model.NameM Model.SchemaM Model.SchemaHand
-  Proofs.SchemaName Proofs.SchemaCodec Proofs.SchemaThm Proofs.SchemaFix.
+  Proofs.SchemaName Proofs.SchemaCodec Proofs.SchemaThm Proofs.SchemaFix Proofs.SchemaReenc.
 Open Scope Z_scope.
 Ltac Zify.zify_post_hook ::= Z.to_euclidean_division_equations.
 
@@ -700,4 +700,137 @@ Proof.
   replace (length A + length b - length A)%nat with (length b) by lia.
   rewrite (opt_items_rt items b (S (length b)) A P) by (auto; lia).
   cbn [bind fst snd]. unfold opt_valid. rewrite Hv. cbn [negb]. rewrite Nat.eqb_refl. reflexivity.
+Qed.
+
+(* ================================================================== fixed points (hand codecs) *)
+(* second half of the property for IPSECKEY, AMTRELAY and HIP: an accepted octet string yields a
+   record whose own encoding exists, decodes to the same record and re-encodes identically *)
+
+Definition gw_abs (g : val) : Prop := match g with VS (VN n) => is_absolute n = true | _ => True end.
+
+Lemma gw_dec_abs : forall w gt e c g c', gw_dec w None gt e c = Ok (g, c') -> gw_abs g.
+Proof.
+  intros w gt e c g c' H. unfold gw_dec in H.
+  destruct (gt =? 0); [injection H as <- _; exact Logic.I|].
+  destruct (gt =? 1); [inv_bind H; injection H as <- _; exact Logic.I|].
+  destruct (gt =? 2); [inv_bind H; injection H as <- _; exact Logic.I|].
+  destruct (gt =? 3); [|discriminate].
+  inv_bind H. injection H as <- _. cbn [gw_abs].
+  unfold get_name in E. destruct (NameM.from_wire (firstn e w) c) as [[n k]| |] eqn:Ef; try discriminate.
+  cbn in E. injection E as <-. cbn [fst]. apply from_wire_abs_valid in Ef. tauto.
+Qed.
+
+Lemma gw_enc_total : forall gt g, gw_valid gt g = true -> gw_abs g -> exists b, gw_enc None g = Ok b.
+Proof.
+  intros gt g Hv Ha. destruct g as [[z|x|n]|rows]; cbn [gw_valid] in Hv; try discriminate; cbn [gw_enc].
+  - eauto.
+  - cbn in Ha. unfold NameM.to_wire. rewrite Ha. eauto.
+  - destruct rows; [eauto|discriminate].
+Qed.
+
+Theorem ipseckey_fixed_point_thm : forall wire cur rdlen vs,
+  hand_decode_rdata HIpseckey None wire cur rdlen = Ok vs ->
+  exists w', hand_encode_rdata HIpseckey None vs = Ok w' /\
+             hand_decode_rdata HIpseckey None w' 0 (length w') = Ok vs.
+Proof.
+  intros wire cur rdlen vs H. unfold hand_decode_rdata in H.
+  destruct (Nat.ltb (length wire) cur); [discriminate|].
+  destruct (Nat.ltb (length wire - cur) rdlen); [discriminate|]. cbv zeta in H.
+  cbn [hand_dec hand_valid] in H.
+  destruct (ipseckey_dec wire None (cur + rdlen) cur) as [[vs' c]| |] eqn:Ed; cbn [bind fst snd] in H; try discriminate.
+  destruct (ipseckey_valid vs') eqn:Hv; cbn [negb] in H; [|discriminate].
+  destruct (Nat.eqb c (cur + rdlen)); [|discriminate]. injection H as <-.
+  (* shape of the decoded value *)
+  unfold ipseckey_dec in Ed.
+  inv_bind Ed. inv_bind Ed. inv_bind Ed. inv_bind Ed. inv_bind Ed. injection Ed as <- _.
+  destruct x2 as [gw cg]. cbn [fst snd] in *.
+  apply gw_dec_abs in E2.
+  pose proof Hv as Hv'. unfold ipseckey_valid in Hv'.
+  apply andb_prop in Hv' as [Hu Hgw].
+  destruct (gw_enc_total _ _ Hgw E2) as [g Eg].
+  assert (Henc : exists w', hand_encode_rdata HIpseckey None
+            [VS (VI (fst x)); VS (VI (fst x0)); VS (VI (fst x1)); gw; VS (VB (fst x3))] = Ok w').
+  { unfold hand_encode_rdata. cbn [hand_valid hand_enc]. rewrite Hv. cbn [ipseckey_enc]. rewrite Hu, Eg. cbn [bind]. eauto. }
+  destruct Henc as [w' Ew]. exists w'. split; [exact Ew|].
+  pose proof (ipseckey_roundtrip_thm _ w' [] [] Ew) as Hr. cbn [app length] in Hr. rewrite app_nil_r in Hr. exact Hr.
+Qed.
+
+Theorem amtrelay_fixed_point_thm : forall wire cur rdlen vs,
+  hand_decode_rdata HAmtrelay None wire cur rdlen = Ok vs ->
+  exists w', hand_encode_rdata HAmtrelay None vs = Ok w' /\
+             hand_decode_rdata HAmtrelay None w' 0 (length w') = Ok vs.
+Proof.
+  intros wire cur rdlen vs H. unfold hand_decode_rdata in H.
+  destruct (Nat.ltb (length wire) cur); [discriminate|].
+  destruct (Nat.ltb (length wire - cur) rdlen); [discriminate|]. cbv zeta in H.
+  cbn [hand_dec hand_valid] in H.
+  destruct (amtrelay_dec wire None (cur + rdlen) cur) as [[vs' c]| |] eqn:Ed; cbn [bind fst snd] in H; try discriminate.
+  destruct (amtrelay_valid vs') eqn:Hv; cbn [negb] in H; [|discriminate].
+  destruct (Nat.eqb c (cur + rdlen)); [|discriminate]. injection H as <-.
+  unfold amtrelay_dec in Ed.
+  inv_bind Ed. inv_bind Ed. inv_bind Ed. injection Ed as <- _.
+  destruct x1 as [gw cg]. cbn [fst snd] in *.
+  apply gw_dec_abs in E1.
+  set (d := fst x0 / 128) in *. set (ty := fst x0 mod 128) in *.
+  pose proof Hv as Hv'. unfold amtrelay_valid in Hv'.
+  apply andb_prop in Hv' as [Hv' Hgw]. apply andb_prop in Hv' as [Hv' Ht]. apply andb_prop in Hv' as [Hp Hd].
+  destruct (gw_enc_total _ _ Hgw E1) as [g Eg].
+  assert (Hty : 0 <= ty <= 3).
+  { destruct gw as [[z|x1|n]|rows]; cbn [gw_valid] in Hgw; try discriminate.
+    - apply orb_prop in Hgw as [Hq|Hq]; apply andb_prop in Hq as [Hq _]; lia.
+    - apply andb_prop in Hgw as [Hq _]. lia.
+    - destruct rows; [lia|discriminate]. }
+  assert (Hu : u8_ok (ty + 128 * d) = true) by (unfold u8_ok; lia).
+  assert (Henc : exists w', hand_encode_rdata HAmtrelay None [VS (VI (fst x)); VS (VI d); VS (VI ty); gw] = Ok w').
+  { unfold hand_encode_rdata. cbn [hand_valid hand_enc]. rewrite Hv. cbn [amtrelay_enc]. rewrite Hp, Hu, Eg. cbn [andb bind]. eauto. }
+  destruct Henc as [w' Ew]. exists w'. split; [exact Ew|].
+  pose proof (amtrelay_roundtrip_thm _ w' [] [] Ew) as Hr. cbn [app length] in Hr. rewrite app_nil_r in Hr. exact Hr.
+Qed.
+
+Theorem hip_fixed_point_thm : forall wire cur rdlen vs,
+  all_bytes wire = true ->
+  hand_decode_rdata HHip None wire cur rdlen = Ok vs ->
+  exists w', hand_encode_rdata HHip None vs = Ok w' /\
+             hand_decode_rdata HHip None w' 0 (length w') = Ok vs.
+Proof.
+  intros wire cur rdlen vs Hb H. unfold hand_decode_rdata in H.
+  destruct (Nat.ltb_spec (length wire) cur) as [|Hc]; [discriminate|].
+  destruct (Nat.ltb_spec (length wire - cur) rdlen) as [|Hl]; [discriminate|]. cbv zeta in H.
+  cbn [hand_dec hand_valid] in H.
+  destruct (hip_dec wire None (cur + rdlen) cur) as [[vs' c]| |] eqn:Ed; cbn [bind fst snd] in H; try discriminate.
+  destruct (hip_valid vs') eqn:Hv; cbn [negb] in H; [|discriminate].
+  destruct (Nat.eqb c (cur + rdlen)); [|discriminate]. injection H as <-.
+  unfold hip_dec in Ed.
+  inv_bind Ed. inv_bind Ed. inv_bind Ed. inv_bind Ed. inv_bind Ed. inv_bind Ed. injection Ed as <- _.
+  destruct x as [lh c1], x0 as [alg c2], x1 as [lk c3], x2 as [hit c4], x3 as [key c5], x4 as [srv c6].
+  cbn [fst snd] in *.
+  assert (He : (cur + rdlen <= length wire)%nat) by lia.
+  (* the three header reads *)
+  unfold get_u in E, E0, E1.
+  inv_bind E. injection E as <- <-. destruct x as [b1 d1]. cbn [fst snd] in *.
+  apply get_bytes_slice in E5 as (-> & -> & L1 & Len1); [|lia|exact He].
+  inv_bind E0. injection E0 as <- <-. destruct x as [b2 d2]. cbn [fst snd] in *.
+  apply get_bytes_slice in E as (-> & -> & L2 & Len2); [|lia|exact He].
+  inv_bind E1. injection E1 as <- <-. destruct x as [b3 d3]. cbn [fst snd] in *.
+  apply get_bytes_slice in E as (-> & -> & L3 & Len3); [|lia|exact He].
+  apply get_bytes_slice in E2 as (-> & -> & L4 & Len4); [|lia|exact He].
+  apply get_bytes_slice in E3 as (-> & -> & L5 & Len5); [|lia|exact He].
+  pose proof (be_decode_bounds _ (all_bytes_slice wire (cur + 1 + 1) (cur + 1 + 1 + 2) Hb)) as Bk.
+  rewrite Len3 in Bk. change (pow256 2) with 65536 in Bk.
+  set (lkz := be_decode (slice wire (cur + 1 + 1) (cur + 1 + 1 + 2))) in *.
+  set (keyb := slice wire (cur + 1 + 1 + 2 + Z.to_nat (be_decode (slice wire cur (cur + 1))))
+                     (cur + 1 + 1 + 2 + Z.to_nat (be_decode (slice wire cur (cur + 1))) + Z.to_nat lkz)) in *.
+  assert (Hkey : zlen keyb < 65536) by (unfold zlen; rewrite Len5; lia).
+  apply dec_rows_abs in E4.
+  pose proof Hv as Hv'. unfold hip_valid in Hv'.
+  apply andb_prop in Hv' as [Hv' Hsrv]. apply andb_prop in Hv' as [Hv' Ha1]. apply andb_prop in Hv' as [Hh Ha0].
+  destruct (enc_rows_total [FName true] srv eq_refl Hsrv E4) as [s Es].
+  set (hitb := slice wire (cur + 1 + 1 + 2) (cur + 1 + 1 + 2 + Z.to_nat (be_decode (slice wire cur (cur + 1))))) in *.
+  set (algz := be_decode (slice wire (cur + 1) (cur + 1 + 1))) in *.
+  assert (Henc : exists w', hand_encode_rdata HHip None [VS (VB hitb); VS (VI algz); VS (VB keyb); VL srv] = Ok w').
+  { unfold hand_encode_rdata. cbn [hand_valid hand_enc]. rewrite Hv. cbn [hip_enc].
+    replace ((zlen hitb <? 256) && (0 <=? algz) && (algz <? 256) && (zlen keyb <? 65536)) with true by lia.
+    rewrite Es. cbn [bind]. eauto. }
+  destruct Henc as [w' Ew]. exists w'. split; [exact Ew|].
+  pose proof (hip_roundtrip_thm _ w' [] [] Ew) as Hr. cbn [app length] in Hr. rewrite app_nil_r in Hr. exact Hr.
 Qed.
